@@ -391,6 +391,46 @@ theorem burst_size (el : Nat) (mem : List Entry) (hc : ChainR mem.reverse) (hs :
     simp only [map_cons, cons_append, prodT, Entry.triple]
     rw [← d1, k1 ls h2, k3 lb h1, Nat.mul_assoc]
 
+/-! ### step 6.2/6.3: the loop nest built by index arithmetic is the list of remaining strides, in order -/
+
+theorem wrapLoops_aux (upper : List Nat) (hne : upper ≠ []) : ∀ k, k ≤ upper.length - 1 →
+    (List.range k).foldl (fun nest i => upper.getD (upper.length - 2 - i) 0 :: nest) [upper.getLastD 0] =
+      upper.drop (upper.length - 1 - k)
+  | 0, _ => by
+    simp only [range_zero, foldl_nil, Nat.sub_zero]
+    cases h : upper.reverse with
+    | nil => exact absurd (by simpa using h) hne
+    | cons a r =>
+      have hu : upper = r.reverse ++ [a] := by simpa using congrArg List.reverse h
+      subst hu; simp
+  | k + 1, hk => by
+    rw [range_succ, foldl_append, wrapLoops_aux upper hne k (by omega)]
+    simp only [foldl_cons, foldl_nil]
+    have hlt : upper.length - 2 - k < upper.length := by omega
+    have h1 : upper.length - 1 - (k + 1) = upper.length - 2 - k := by omega
+    have h2 : upper.length - 1 - k = upper.length - 2 - k + 1 := by omega
+    rw [h1, h2, List.drop_eq_getElem_cons hlt]
+    simp [List.getD_eq_getElem?_getD, List.getElem?_eq_getElem hlt]
+
+/-- for every number of loops: the nest has exactly the trip counts `upper`, outermost first -/
+theorem wrapLoops_eq (upper : List Nat) (h : upper ≠ []) : wrapLoops upper = upper := by
+  unfold wrapLoops
+  rw [wrapLoops_aux upper h (upper.length - 1) (Nat.le_refl _)]
+  simp
+
+theorem zipWith_bound_triple (rest : List Entry) :
+    List.zipWith (fun b (e : Entry) => (b, e.sstep, e.dstep)) (rest.map (·.bound)) rest = rest.map Entry.triple := by
+  induction rest with
+  | nil => rfl
+  | cons e r ih => simp [Entry.triple, ih]
+
+theorem buildLoops_eq (rest : List Entry) : buildLoops rest = rest.map Entry.triple := by
+  unfold buildLoops
+  split
+  next h => simp [show rest = [] by simpa using h]
+  next h =>
+    rw [wrapLoops_eq _ (by intro hn; apply h; simpa using hn), zipWith_bound_triple]
+
 /-- core of steps 4–6: whatever list `remL` of remaining strides is handed to `build`, if the flat entries split
 into loops of trip count 1 (`U`), a permutation `R` of `remL`, and the block members, the program performs the loop
 nest over ALL entries and the element bytes. -/
@@ -443,6 +483,7 @@ theorem build_moves_core (el sb db total : Nat) (flat mem remL : List Entry) (p 
       split at hb
       next lb ls h1 h2 =>
         injection hb with hb; subst hb
+        rw [buildLoops_eq]
         have hsz : prodT B = lb * ls * el := burst_size el mem hchain hstatic hkmem last lb ls hl h1 h2
         have hB : offs B = (List.range (lb * ls * el)).map fun k => (k, k) := by rw [offs_dense B hdense, hsz]
         rw [moves_twoD sb db _ _ _ _ _ B hB]
